@@ -47,6 +47,13 @@ class Sim:
         self.repo, self.module = repo, module
         self.mod = repo.module(module)
         self.globals = dict(SAFE)
+        # pure helpers of the standard library the lexer's helpers may import (itertools / functools / operator)
+        import itertools, functools, operator
+        std = {"itertools": itertools, "functools": functools, "operator": operator}
+        for name, (src, orig) in self.mod.imports.items():
+            root = src.split(".")[0]
+            if root in std:
+                self.globals[name] = std[root] if orig is None else getattr(std[root], orig, None)
         # Enum classes of the module, rebuilt from their member names
         for cname, cnode in self.mod.classes.items():
             if any(norm(b).split(".")[-1] in ("Enum", "IntEnum") for b in cnode.bases):
